@@ -127,6 +127,11 @@ func (z *ZodMap[T, R]) Parse(input any, ctx ...*core.ParseContext) (R, error) {
 		if v == nil {
 			return zero, nil
 		}
+		// A pointer schema hands back the pointer the engine returned (the caller's own
+		// when the caller passed one) instead of wrapping the map in a new one.
+		if r, ok := any(v).(R); ok {
+			return r, nil
+		}
 		return convertFromGeneric[T, R](*v), nil
 	case nil:
 		return zero, nil
